@@ -144,7 +144,7 @@ Theorem acyclic_terminates_lemma p : check p = true ->
   forall f g, nth_error (funs p) f = Some g ->
   forall n, (fuel_bound p <= n)%nat -> forall w fr, exec n p w fr (fbody g) <> Fuel.
 Proof.
-  intros Hc f g Hf n Hn w fr. unfold check in Hc. apply andb_prop in Hc. destruct Hc as [_ Ha].
+  intros Hc f g Hf n Hn w fr. unfold check in Hc. apply andb_prop in Hc. destruct Hc as [Hc _]. apply andb_prop in Hc. destruct Hc as [_ Ha].
   unfold acyclic in Ha. rewrite forallb_forall in Ha.
   assert (Hlt : (f < length (funs p))%nat) by (apply nth_error_Some; congruence).
   assert (Hin : In f (seq 0 (length (funs p)))) by (apply in_seq; lia).
@@ -321,7 +321,7 @@ Proof.
   intros Hall. induction k as [|k IH]; intros f g n w fr o w' fr' t Hc Hf H; [discriminate|].
   cbn in Hc. cbn [ib_f]. rewrite Hf in *.
   destruct (inner_iters p k IH n) as [_ Hs]. eapply Hs; eauto.
-  eapply chk_bounded. apply (Hall g). eapply nth_error_In; eauto.
+  eapply chk_bounded. pose proof (Hall g (nth_error_In _ _ Hf)) as Hg. unfold fn_ok in Hg. repeat (apply andb_prop in Hg; destruct Hg as [Hg ?]). exact Hg.
 Qed.
 
 (* every run of a function of an accepted program performs at most `ib_f` loop iterations in total (including
@@ -331,7 +331,7 @@ Theorem static_iteration_bound_lemma p : check p = true ->
     exec n p w fr (fbody g) = Done (o, w', fr', t) -> (niter t <= ib_f (length (funs p)) p f)%nat.
 Proof.
   intros Hc f g n w fr o w' fr' t Hf H.
-  pose proof Hc as Hc2. unfold check in Hc2. apply andb_prop in Hc2. destruct Hc2 as [Hall Ha].
+  pose proof Hc as Hc2. unfold check in Hc2. apply andb_prop in Hc2. destruct Hc2 as [Hc2 _]. apply andb_prop in Hc2. destruct Hc2 as [Hall Ha].
   rewrite forallb_forall in Hall. unfold acyclic in Ha. rewrite forallb_forall in Ha.
   assert (Hlt : (f < length (funs p))%nat) by (apply nth_error_Some; congruence).
   eapply fn_iters; eauto. apply Ha. apply in_seq. lia.
